@@ -261,7 +261,14 @@ def h_by_region(sx, cfg):
     b_ = [a_[i] + w_[i] for i in range(nd)]
     mine = min(e)
     inside = sx.And(*[sx.And(a_[i] >= pmin[i], b_[i] <= pmin[i] + e[i]) for i in range(nd)])
-    box = df.Region(p1=a_, p2=b_)
+    try:
+        box = df.Region(p1=a_, p2=b_)
+    except ValueError:
+        if sx.sym:
+            raise
+        from symx.core import PathAbort
+
+        raise PathAbort("box width absorbed by binary64 rounding")  # native replay only: w > 0 is not representable
     bands0 = [2 * TF * (mine + abs(a_[i]) + abs(b_[i])) for i in range(nd)]
     # rejection is allowed for boxes reaching the region faces up to the band (the concrete float geometry is exact only to an ulp)
     inside = sx.And(*[sx.And(a_[i] >= pmin[i] + bands0[i], b_[i] <= pmin[i] + e[i] - bands0[i]) for i in range(nd)])
